@@ -4,5 +4,5 @@ export GOFLAGS=-mod=mod GOPROXY=off GOSUMDB=off GOTOOLCHAIN=local
 cd /verif
 for p in "$@"; do
   for k in 1 2; do bin/govc -prop $p >/dev/null || { echo "accept: $p does not pass (run $k)"; exit 1; }; done
-  bin/govc -prop $p -write-baseline baseline/obligations.json | tail -1
+  bin/govc -prop $p -write-baseline | tail -1
 done
